@@ -16,7 +16,7 @@ ASSUMPTIONS = [
     "the mirror image of an axisymmetric particle with axis u is the same particle with axis M u",
 ]
 
-TOL = {"mie": 1e-10, "ms": 2e-3, "tmatrix": 3e-5, "mielens": 1e-10, "amielens": 1e-10, "lens": 1e-10, "lens_tm": 3e-5}
+TOL = {"mie": 1e-10, "ms": 2e-3, "tmatrix": 3e-5, "mielens": 1e-10, "amielens": 1e-10, "lens": 1e-10, "lens_tm": 3e-5, "lens_ms": 2e-3}
 KINDS = ["sphere", "layered", "cluster_mie", "cluster_ms", "spheroid", "cylinder", "mielens", "amielens", "lens"]
 
 
@@ -46,12 +46,20 @@ def _scene(kd):
                                       "th": st.fixed_dictionaries({"t": st.just("lens"), "lens_angle": gen.rounded(0.2, 1.0, 3),
                                                                    "q": st.tuples(st.integers(14, 20), st.integers(14, 20)).map(list),
                                                                    "inner": st.just("tmatrix")})})
+    if kd in ("lens_ms", "lens_cluster_mie"):
+        inner = "ms" if kd == "lens_ms" else "mie"
+        mem = st.fixed_dictionaries({"x": gen.size_param(0.5, 3.0), "m": gen.rel_index(False, 1.05, 1.8),
+                                     "dir": st.tuples(st.floats(0.3, math.pi - 0.3), st.floats(0, 2 * math.pi)).map(list), "dist": st.floats(1.05, 1.5)})
+        return st.fixed_dictionaries({"kind": st.just("cluster"), "mem": st.lists(mem, min_size=2, max_size=3),
+                                      "pl": st.fixed_dictionaries({"fx": gen.rounded(0, 1, 3), "fy": gen.rounded(0, 1, 3), "kgap": st.floats(20.0, 80.0)}),
+                                      "th": st.fixed_dictionaries({"t": st.just("lens"), "lens_angle": gen.rounded(0.3, 1.0, 3), "q": st.just([24, 24]),
+                                                                   "inner": st.just(inner)})})
     return gen.scene_lens(kd)
 
 
 def strat(tier):
     opts = []
-    for kd in KINDS + ["lens_tm"]:
+    for kd in KINDS + ["lens_tm", "lens_ms", "lens_cluster_mie"]:
         pol = st.just([1.0, 0.0]) if kd in ("spheroid", "cylinder") else None
         opts.append(st.fixed_dictionaries({"o": gen.optics(True, pol=pol), "det": _points_det(), "sc": _scene(kd)}))
     ang = st.one_of(st.floats(0, 2 * math.pi), st.floats(0, 2 * math.pi),
@@ -65,6 +73,8 @@ def _tkey(sc):
     t = sc["th"]["t"]
     if t == "lens" and sc["th"].get("inner") == "tmatrix":
         return "lens_tm"
+    if t == "lens" and sc["th"].get("inner") == "ms":
+        return "lens_ms"
     return t
 
 
@@ -97,7 +107,7 @@ def run(case):
     if sc["th"]["t"] == "lens":
         # keep the numerical lens integral cheap and converged: points within +-5 wavelengths,
         # |kz| <= 120, quadrature order adapted to the oscillation of the integrand
-        shrink = 0.4 if sc["th"].get("inner", "mie") == "mie" else 0.12
+        shrink = 0.4 if (sc["th"].get("inner", "mie") == "mie" and sc["kind"] == "sphere") else 0.12
         det = {"kind": "points", "pts": [[p[0] * shrink, p[1] * shrink, 0.0] for p in det["pts"]]}
         if "kz" in sc["pl"]:
             sc = dict(sc, pl=dict(sc["pl"], kz=max(-100.0, min(120.0, sc["pl"]["kz"]))))
@@ -107,12 +117,14 @@ def run(case):
         kk = gen.wavevec(o)
         c0 = np.array(info["centers"][0])
         krho = kk * np.hypot(P[:, 0] - c0[0], P[:, 1] - c0[1]).max()
-        xx = sc["s"]["x"] if "s" in sc else kk * info["radii"][0]
+        xx = sc["s"]["x"] if "s" in sc else kk * (max(info["radii"]) + (np.ptp(np.array(info["centers"]), axis=0).max() if len(info["centers"]) > 1 else 0.0))
         q = gen.lens_quad_order(kk * (c0[2] - P[0, 2]), krho, sc["th"]["lens_angle"], xx)
         th = gen.build_theory(dict(sc["th"], q=[q, q]))
     op = case["op"]
     a = case["angle"]
-    labels = [gen.scene_label(sc) if tk != "lens_tm" else sc["kind"] + "+lens(tmatrix)", op]
+    labels = [gen.scene_label(sc) if tk not in ("lens_tm", "lens_ms") else sc["kind"] + "+lens(%s)" % sc["th"]["inner"], op]
+    if sc["th"]["t"] == "lens" and sc["kind"] == "cluster" and sc["th"].get("inner") == "mie":
+        labels[0] = "cluster+lens(mie)"
     pol = np.array(o["pol"], dtype=float)
     pang = math.atan2(pol[1], pol[0])
     bare_tm = sc["th"]["t"] == "tmatrix"
